@@ -1492,6 +1492,21 @@ def _validate_transport_unconditional_counterfactual_query_input(  # noqa:C901
             + "must contain at least one variable with a value that is not None. Check your inputs."
         )
 
+    # 6.5. A variable that intervenes on itself must have a value (simplify() can't process it otherwise)
+    if any(
+        value is None
+        and isinstance(variable, CounterfactualVariable)
+        and any(
+            intervention.get_base() == variable.get_base()
+            for intervention in variable.interventions
+        )
+        for variable, value in event
+    ):
+        raise TypeError(
+            "In _validate_transport_unconditional_counterfactual_query_input: a variable containing "
+            + "interventions on itself has an assigned value of None. Check your inputs."
+        )
+
     # Check we have no empty inputs (Algorithms 2, 3, and 4)
     # 7.
     if len(domain_graphs) == 0 or len(domain_data) == 0:
